@@ -66,16 +66,13 @@ def run(tier, seed, replay):
     nat = search()
     import re as _re
     K7 = _re.compile(r"(\\|\?\?/)(\?\?[<>()=/'!\-]|<%|%>|<:|:>|%:|\t)")      # escape of a respelled character / of a tab
-    K6 = _re.compile(r"//[^\n]*(\\|\?\?/)\n")                                  # splice inside a // comment
-    K8 = _re.compile(r"'[^'\n]*(\\|\?\?/)\n\n")                              # splice + newline inside a char literal
+    K8 = _re.compile(r"'(?:[^'\n]|(?:\\|\?\?/)\n)*(?:\\|\?\?/)\n\n")        # splice + empty line inside an unterminated char literal (earlier splices allowed)
     kf = {k["id"]: k for k in chk.known}
     unexplained = []
     for v in nat["violations"]:
         hit = None
         if "K7" in kf and K7.search(v["text"]):
             hit = "K7"
-        elif "K6" in kf and K6.search(v["text"]):
-            hit = "K6"
         elif "K8" in kf and K8.search(v["text"]):
             hit = "K8"
         if hit:
@@ -88,7 +85,7 @@ def run(tier, seed, replay):
                     "first token are reported bad lexemes (independent scanner)",
                     nat["bound"], nat["cases"], unexplained, nontrivial=nat["nontrivial"], samples=[nat["bound"][:80]],
                     time_s=found.get("t", 0.0))
-    explained = any(i.status == "failed" for i in chk.items)
+    explained = chk.has_unlisted_failure()
     if unexplained and not explained:
         v = unexplained[0]
         chk.report_violation("C10.bounded.roundtrip", {"property": "C10", "obligation": "C10.bounded.roundtrip",
